@@ -2,7 +2,7 @@
 import itertools
 
 from engines import envmachine, e1gen
-from vlib.runner import Search, Enumerate, Violation
+from vlib.runner import Search, Enumerate, Machine, Violation
 
 ID = 'C07'
 RULE = ('(i) complete enumeration of all operation sequences of the stated length over the 11-letter alphabet '
@@ -10,7 +10,7 @@ RULE = ('(i) complete enumeration of all operation sequences of the stated lengt
         'cancel a2, step, run(1.5)} after the prologue [sched(a1,+1), run(0.75)] (clock > 0 before any pause); '
         'every prefix is checked because the oracle runs after every operation. (ii) Hypothesis-generated '
         'sequences (up to 60 operations; dyadic times; asset ids {1,2,3}, a non-matching id and None; nested '
-        'programs executed from inside event actions). Oracle: reference queue model interpreted in lock-step; '
+        'programs executed from inside event actions). (iii) a Hypothesis RuleBasedStateMachine whose pause / unpause / cancel rules draw the asset from those that currently have queued resp. paused events (state-dependent generation; the history is recorded as the same JSON operation list). Oracle: reference queue model interpreted in lock-step; '
         'pending (time,event) pairs and the paused set compared after every operation, every execution checked '
         'against the model time. Non-trivial = some event was paused at clock > 0, resumed at a strictly later '
         'clock and then executed; distinct = SHA-1 of the canonical case JSON.')
@@ -36,13 +36,18 @@ def space(length):
 def phases(tier):
     if tier == 'quick':
         return [Enumerate('enumeration-len5', space(5), 16, describe='11^5 = 161051 sequences'),
-                Search('hypothesis-sequences', lambda: e1gen.cases(40, PROLOGUE, with_past=False), 600, shards=4)]
+                Search('hypothesis-sequences', lambda: e1gen.cases(40, PROLOGUE, with_past=False), 600, shards=4),
+                Machine('stateful-machine', envmachine.env_machine(('C07',), summarise), 250, 40, shards=4)]
     return [Enumerate('enumeration-len6', space(6), 64, describe='11^6 = 1771561 sequences'),
-            Search('hypothesis-sequences', lambda: e1gen.cases(60, PROLOGUE, with_past=False), 4000, shards=16)]
+            Search('hypothesis-sequences', lambda: e1gen.cases(60, PROLOGUE, with_past=False), 4000, shards=16),
+            Machine('stateful-machine', envmachine.env_machine(('C07',), summarise), 1500, 80, shards=16)]
 
 
 def run_case(case, ctx):
-    m = envmachine.run(case, ('C07',))
+    return summarise(envmachine.run(case, ('C07',)))
+
+
+def summarise(m):
     resumed_later = 0
     # non-trivial: an event paused at clock > 0, resumed at a later clock, and executed
     for r in m.recs:
